@@ -32,4 +32,14 @@ theorem fresh_connection (app : App) (c : Bytes) (hex : Exact c) :
     (run app 2 ⟨none, 0⟩ ⟨[c], true⟩).1 = (match answer app c with | some (out, _) => [out] | none => []) :=
   alone app c hex
 
+/-! non-vacuity: a chunk that meets `Exact` -/
+private def getRoot : Bytes := [71,69,84,32,47,32,72,84,84,80,47,49,46,49,13,10,13,10]
+private theorem getRoot_parse : Http.parse getRoot [] = Http.Outcome.ok (⟨"GET", [], none, [], [], none⟩ : Http.Parsed) := by rfl
+example : Exact getRoot := by
+  unfold Exact
+  refine ⟨by decide, ?_⟩
+  have h1 : getRoot.take BUF = getRoot := by decide
+  have h2 : getRoot.drop BUF = [] := by decide
+  rw [h1, h2, getRoot_parse]; rfl
+
 end C05
